@@ -28,7 +28,7 @@ def c15(replay_case=None):
                        "all parsers of a history are built with the same action table; the fresh reference is a new Grammar and a new parser of the same kind",
                        "builds interrupted from outside (signals) are not part of the statement and are not generated"]
     return out.finish(extra_cov={
-        "rule": "histories = ALL sequences up to 3 (thorough 4) steps over {build lr/glr/lrrec/lrld0, failing build (conflicts, ParserInitError), parse of sentence / non-sentence / input raising in an "
+        "rule": "histories = ALL sequences up to 3 (thorough 4) steps over {build lr/glr/lrrec/lrld0, failing build (conflicts; a ParserInitError build would need a different action table, which the statement excludes), parse of sentence / non-sentence / input raising in an "
                 "action / in a recognizer / keyword overlap by any built parser} enumerated by TLC from Lifecycle.tla, plus seeded TLC simulations of depth 6 over 7 parser kinds and 7 inputs; "
                 "each replayed on both grammar variants; every parse reply compared with a fresh parser's; grammar projection compared after every step; "
                 "non-trivial = at least two parser kinds or a failing build in the history",
